@@ -255,6 +255,7 @@ def check_config(ctx, F, tag, text, lists):
     need(text, r"we pad the block with `0` values", "block padding")
     ctx.ob("C07.R3.zero-block-padding", "rl_vector::RLBuilder::flush" + tag, loc(fb.raw["span"]), len(rs) == 1 and m(Const(0), fb.term_of_operand(rs[0]["args"][2])), "constant",
            "closed blocks are padded by data.resize(.., 0): %s" % (len(rs) == 1))
+    check_rl_block_fit(ctx, F, tag, "C07.R3")
     need(text, r"bytes of padding with byte value 0", "byte padding")
     need(text, r"Any unused bits in the last element must be set to `0`", "unused bits")
     ctx.note("zero byte padding is decided by C06.R2.basic.bytes-body")
@@ -295,3 +296,73 @@ def check_config(ctx, F, tag, text, lists):
     bl = F.body("<bit_vector::BitVector as serialize::Serialize>::load")
     unwraps = [callee_name(t) for _, t in bl.calls() if callee_name(t).split("::")[-1].split("<")[0] in ("unwrap", "expect")]
     ctx.ob("C07.R5.bitvector-load-accepts-absent", bl.name + tag, loc(bl.raw["span"]), not unwraps, "who-is-called", "no unwrap/expect on the loaded options: %s" % unwraps, nontrivial=False)
+
+
+def check_rl_block_fit(ctx, F, tag, prefix):
+    """Whole runs per block: in RLBuilder::flush the two values of a run are encoded only after the test that both fit into the
+    current block -- on every path, with the very terms that are then encoded -- or after the block was closed (padded, sample
+    pushed). A shortcut around the test is accepted only under `data.len() + K <= capacity` for a constant K that is at least
+    the largest possible code length of two values."""
+    from guards import edge_facts
+    from mapped import add_leaves
+    fb = F.body("rl_vector::RLBuilder::flush")
+    where = loc(fb.raw["span"])
+    enc = [(bi, t) for bi, t in fb.calls() if callee_name(t) == "rl_vector::RLBuilder::encode"]
+    if len(enc) != 2:
+        raise Undecided("anchor lost: RLBuilder::flush has %d encode calls (a run is a gap and a length)" % len(enc))
+    vals = [strip_casts(fb.term_of_operand(t["args"][1])) for _, t in enc]
+    shift = F.const("rl_vector::RLVector::CODE_SHIFT")
+    worst = 2 * ((64 + shift - 1) // shift)
+
+    def is_data_len(x):
+        x = strip_casts(x)
+        return x[0] == "call" and x[1].endswith("::len") and len(x[2]) == 1 and self_path(x[2][0]) == ["data"]
+    fits, safe, caps = [], [], []
+    for u, v, f in edge_facts(fb):
+        if f[0] != "cmp":
+            continue
+        op, a, c = f[1], f[2], f[3]
+        if op in ("Ge", "Gt"):
+            op, a, c = {"Ge": "Le", "Gt": "Lt"}[op], c, a
+        if op not in ("Le", "Lt"):
+            continue
+        leaves = [strip_casts(x) for x in add_leaves(a)]
+        if not any(is_data_len(x) for x in leaves):
+            continue
+        rest = [x for x in leaves if not is_data_len(x)]
+        lens = [x for x in rest if x[0] == "call" and x[1] == "rl_vector::RLBuilder::code_len" and len(x[2]) == 1]
+        if len(lens) == len(rest) == 2 and sorted(map(str, [strip_casts(x[2][0]) for x in lens])) == sorted(map(str, vals)):
+            fits.append((u, v))
+            caps.append(c)
+        elif len(rest) == 1 and rest[0][0] == "const" and isinstance(rest[0][1], int) and rest[0][1] >= worst:
+            safe.append((u, v))
+    closes = [(bi, t) for bi, t in fb.calls() if callee_name(t).endswith("Resize>::resize") and self_path(fb.term_of_operand(t["args"][0])) == ["data"]]
+    pushes = [bi for bi, t in fb.calls() if callee_name(t).endswith("::push") and self_path(fb.term_of_operand(t["args"][0])) == ["samples"]]
+    removed = set(fits) | set(safe)
+    blocked = {bi for bi, _ in closes}
+
+    def reach(start, blocked_blocks, removed_edges):
+        seen, stack = set(), [start]
+        while stack:
+            x = stack.pop()
+            if x in seen or x in blocked_blocks:
+                continue
+            seen.add(x)
+            for y in fb.succ(x):
+                if (x, y) not in removed_edges:
+                    stack.append(y)
+        return seen
+    first = min(bi for bi, _ in enc)
+    bypass = enc[0][0] in reach(0, blocked, removed) or enc[1][0] in reach(0, blocked, removed)
+    ok = bool(fits) and not bypass
+    detail = "encode(%s), encode(%s): fit test `data.len() + code_len(..) + code_len(..) <= capacity` on the same two terms: %s; path to an encode that neither passes the test nor closes the block: %s" % (
+        tstr(vals[0])[:50], tstr(vals[1])[:50], bool(fits), bypass)
+    if ok and closes:
+        cap_ok = all(strip_casts(fb.term_of_operand(t["args"][1])) in [strip_casts(c) for c in caps] for _, t in closes)
+        samp_ok = bool(pushes) and all(not (set(b for b, _ in enc) & reach(cb, set(pushes), set())) for cb, _ in closes)
+        ok = cap_ok and samp_ok
+        detail += "; closing pads to the tested capacity: %s; a sample is pushed before the run is encoded in the new block: %s" % (cap_ok, samp_ok)
+    elif ok:
+        ok = False
+        detail += "; no block-closing resize found"
+    ctx.ob(prefix + ".whole-runs-per-block", "rl_vector::RLBuilder::flush" + tag, where, ok, "must-pass-through", detail)
